@@ -1,5 +1,5 @@
-(** Proofs/EvalFixed.v — the parser round trip for the REPAIRED tree builder [go_fixed] /
-    [build_fixed] of Model/EvalRun.v (F16 fixed: an implicit operation before a parenthesised
+(** Proofs/EvalFixed.v — the parser round trip for the REPAIRED tree builder [go_p false pe] /
+    [build_p false pe] (the "(" branch after the fix of F16: an implicit operation before a parenthesised
     group obeys the priority test).  The proof is the one of Proofs/EvalProofs.v with the
     step lemmas of the repaired "(" branch; the juxtaposition restriction of [legal] shrinks to
     "the right operand does not start with a sign". *)
@@ -9,108 +9,7 @@ Open Scope string_scope.
 Open Scope nat_scope.
 Open Scope list_scope.
 
-(** * One loop iteration of [go_fixed] *)
-Section StepsF.
-  Context (tbl : list (string * Z)) (toks : list tok).
-
-  (** the tail of the loop body as a top-level function *)
-  Definition tail_of_f (f depth : nat) (prev : string) (result' : option tree) (index' : nat)
-    : res (tree * nat) :=
-    match tok_at toks index' with
-    | None => Err EIndex
-    | Some TEnd =>
-        if String.eqb prev "(" then Err EUnclosed
-        else match result' with None => Err EAssert | Some r => Ok (r, index') end
-    | Some _ =>
-        if Nat.leb (ntoks toks) (index' + 1) then Err EUnexpectedEnd
-        else go_fixed tbl toks f (index' + 1) depth prev result'
-    end.
-
-  Lemma gf_atom_none f i d p a :
-    tok_at toks i = Some a → is_atom_tok a = true →
-    go_fixed tbl toks (S f) i d p None = tail_of_f f d p (Some (Leaf a)) i.
-  Proof. intros H Ha. unfold tail_of_f. simpl. rewrite H. destruct a; try discriminate; reflexivity. Qed.
-
-  Lemma gf_atom_some f i d p a r :
-    tok_at toks i = Some a → is_atom_tok a = true →
-    go_fixed tbl toks (S f) i d p (Some r) =
-      if Z.leb (prio_d tbl "") (prio_d tbl p) then Ok (r, pred i)
-      else match go_fixed tbl toks f i (d + 1) "" None with
-           | Err e => Err e
-           | Ok (rt, i') => tail_of_f f d p (Some (Eval.Bin "" r rt)) i'
-           end.
-  Proof. intros H Ha. simpl. rewrite H. destruct a; try discriminate; reflexivity. Qed.
-
-  Lemma gf_close f i d p result :
-    tok_at toks i = Some (TOp ")") →
-    go_fixed tbl toks (S f) i d p result =
-      if String.eqb p "<none>" then Err EUnopened
-      else match result with
-           | None => Err EAssert
-           | Some r => if String.eqb p "(" then Ok (r, i) else Ok (r, pred i)
-           end.
-  Proof. intros H. simpl. rewrite H. reflexivity. Qed.
-
-  Lemma gf_open_none f i d p :
-    tok_at toks i = Some (TOp "(") →
-    go_fixed tbl toks (S f) i d p None =
-      match go_fixed tbl toks f (i + 1) 0 "(" None with
-      | Err e => Err e
-      | Ok (rt, i') =>
-          match tok_at toks i' with
-          | None => Err EIndex
-          | Some t =>
-              if negb (bool_decide (t = TOp ")")) then Err EWeird
-              else tail_of_f f d p (Some rt) i'
-          end
-      end.
-  Proof. intros H. simpl. rewrite H. reflexivity. Qed.
-
-  Lemma gf_open_some f i d p r :
-    tok_at toks i = Some (TOp "(") →
-    go_fixed tbl toks (S f) i d p (Some r) =
-      if Z.leb (prio_d tbl "") (prio_d tbl p) then Ok (r, pred i)
-      else match go_fixed tbl toks f i (d + 1) "" None with
-           | Err e => Err e
-           | Ok (rt, i') => tail_of_f f d p (Some (Eval.Bin "" r rt)) i'
-           end.
-  Proof. intros H. simpl. rewrite H. reflexivity. Qed.
-
-  Lemma gf_skip f i d p result t :
-    tok_at toks i = Some t → (t = TOther ∨ t = TEnd) →
-    go_fixed tbl toks (S f) i d p result = tail_of_f f d p result i.
-  Proof. intros H [-> | ->]; unfold tail_of_f; simpl; rewrite H; reflexivity. Qed.
-
-  Lemma gf_op f i d p result s :
-    tok_at toks i = Some (TOp s) → not_paren s = true →
-    go_fixed tbl toks (S f) i d p result =
-      match prio tbl s with
-      | None => tail_of_f f d p result i
-      | Some pr =>
-          match result with
-          | Some r =>
-              if Z.leb pr (prio_d tbl p) && negb (String.eqb s "**" || String.eqb s "^")
-              then Ok (r, pred i)
-              else match go_fixed tbl toks f (i + 1) (d + 1) s None with
-                   | Err e => Err e
-                   | Ok (rt, i') => tail_of_f f d p (Some (Eval.Bin s r rt)) i'
-                   end
-          | None =>
-              match go_fixed tbl toks f (i + 1) (d + 1) "unary" None with
-              | Err e => Err e
-              | Ok (rt, i') => tail_of_f f d p (Some (Un s rt)) i'
-              end
-          end
-      end.
-  Proof.
-    intros H Hs. unfold not_paren in Hs. apply andb_true_iff in Hs as [H1 H2].
-    apply negb_true_iff in H1, H2. apply String.eqb_neq in H1, H2.
-    unfold tail_of_f. simpl. rewrite H.
-    destruct s as [|[[] [] [] [] [] [] [] []] [|]]; try reflexivity; congruence.
-  Qed.
-End StepsF.
-
-Local Arguments go_fixed : simpl never.
+Local Arguments go_p : simpl never.
 
 (** the follower of an operand, for the repaired builder: an implicit operation may also be
     announced by an opening parenthesis *)
@@ -159,13 +58,13 @@ Proof.
   - destruct o; try (intros (rest & ->); eauto); intros (a & rest & -> & _); eauto.
 Qed.
 
-Lemma sub_return_f (toks pre0 : list tok) t0 post F c' d' r f :
+Lemma sub_return_f pe (toks pre0 : list tok) t0 post F c' d' r f :
   toks = (pre0 ++ [t0]) ++ post → t0 ≠ TEnd →
   followsf post F → is_sub c' = true → flvl F ≤ crl c' → 2 ≤ f →
-  ∃ j, go_fixed op_priority toks f (length (pre0 ++ [t0])) d' (cstr c') (Some r) = Ok (r, j) ∧
+  ∃ j, go_p false pe op_priority toks f (length (pre0 ++ [t0])) d' (cstr c') (Some r) = Ok (r, j) ∧
        ∀ f2 d c R, 2 ≤ f2 →
-         tail_of_f op_priority toks f2 d (cstr c) R j
-         = go_fixed op_priority toks f2 (length (pre0 ++ [t0])) d (cstr c) R.
+         tail_of false pe op_priority toks f2 d (cstr c) R j
+         = go_p false pe op_priority toks f2 (length (pre0 ++ [t0])) d (cstr c) R.
 Proof.
   intros Htoks Ht0 HF Hsub Hlvl Hf.
   set (pos := length (pre0 ++ [t0])).
@@ -179,9 +78,9 @@ Proof.
   { rewrite (ntoks_app _ _ _ Htoks), Hpost. simpl. unfold pos. lia. }
   (* returning [pos - 1]: the caller's tail looks at t0 and moves on to pos *)
   assert (Hback : ∀ f2 d c R,
-             tail_of_f op_priority toks f2 d (cstr c) R (pred pos)
-             = go_fixed op_priority toks f2 pos d (cstr c) R).
-  { intros. unfold tail_of_f. replace (pred pos) with (length pre0) by lia. rewrite Hprev.
+             tail_of false pe op_priority toks f2 d (cstr c) R (pred pos)
+             = go_p false pe op_priority toks f2 pos d (cstr c) R).
+  { intros. unfold tail_of. replace (pred pos) with (length pre0) by lia. rewrite Hprev.
     replace (length pre0 + 1) with pos by lia.
     assert (Hle : Nat.leb (ntoks toks) pos = false) by (apply Nat.leb_gt; lia).
     rewrite Hle. destruct t0; try reflexivity; congruence. }
@@ -194,54 +93,55 @@ Proof.
     destruct HF as [-> | ->].
     + injection Hpost as <- <-.
       exists pos. split.
-      * rewrite (gf_skip _ _ _ _ _ _ _ TEnd Hcur) by auto.
-        unfold tail_of_f. rewrite Hcur, Hnn2. done.
+      * rewrite  (go_skip _ _ _ _ _ _ _ _ _ TEnd Hcur) by auto.
+        unfold tail_of. rewrite Hcur, Hnn2. done.
       * intros f2 d c R Hf2. destruct f2 as [|f2]; [lia|].
-        rewrite (gf_skip _ _ _ _ _ _ _ TEnd Hcur) by auto. unfold tail_of_f. rewrite Hcur. done.
+        rewrite  (go_skip _ _ _ _ _ _ _ _ _ TEnd Hcur) by auto. unfold tail_of. rewrite Hcur. done.
     + injection Hpost as <- <-.
       assert (Hend : tok_at toks (pos + 1) = Some TEnd).
       { replace (pos + 1) with (length ((pre0 ++ [t0]) ++ [TOther])) by (rewrite app_length; simpl; lia).
         apply (tok_at_mid _ _ _ []). rewrite Htoks, <- !app_assoc. done. }
       assert (Hle : Nat.leb (ntoks toks) (pos + 1) = false) by (apply Nat.leb_gt; simpl in Hn; lia).
-      assert (Hgo : ∀ f3 d c R, go_fixed op_priority toks (S (S f3)) pos d (cstr c) R
+      assert (Hgo : ∀ f3 d c R, go_p false pe op_priority toks (S (S f3)) pos d (cstr c) R
                      = if String.eqb (cstr c) "(" then Err EUnclosed
                        else match R with None => Err EAssert | Some r => Ok (r, pos + 1) end).
-      { intros. rewrite (gf_skip _ _ _ _ _ _ _ TOther Hcur) by auto.
-        unfold tail_of_f at 1. rewrite Hcur, Hle.
-        rewrite (gf_skip _ _ _ _ _ _ _ TEnd Hend) by auto.
-        unfold tail_of_f. rewrite Hend. done. }
+      { intros. rewrite  (go_skip _ _ _ _ _ _ _ _ _ TOther Hcur) by auto.
+        unfold tail_of at 1. rewrite Hcur, Hle.
+        rewrite  (go_skip _ _ _ _ _ _ _ _ _ TEnd Hend) by auto.
+        unfold tail_of. rewrite Hend. done. }
       exists (pos + 1). split.
       * destruct f as [|f]; [lia|]. rewrite Hgo, Hnn2. done.
       * intros f2 d c R Hf2. destruct f2 as [|[|f2]]; try lia.
-        rewrite Hgo. unfold tail_of_f. rewrite Hend. done.
+        rewrite Hgo. unfold tail_of. rewrite Hend. done.
   - (* closing parenthesis of an enclosing group *)
     destruct HF as (rest' & ->). injection Hpost as <- <-.
     exists (pred pos). split; [|intros; apply Hback].
-    rewrite (gf_close _ _ _ _ _ _ _ Hcur), Hnn1, Hnn2. done.
+    rewrite  (go_close _ _ _ _ _ _ _ _ _ Hcur), Hnn1, Hnn2. done.
   - (* an operator of an enclosing call *)
     exists (pred pos). split; [|intros; apply Hback].
-    assert (Hstop : (Z.leb (bprio o) (cprio c') && negb (is_pow o)) = true).
-    { destruct c' as [| | |o']; try discriminate; simpl in Hlvl; destruct o; simpl in Hlvl; try lia;
-        try reflexivity; destruct o'; simpl in Hlvl; try lia; reflexivity. }
+    assert (Hstop : op_ends pe (bprio o) (cprio c') (opstr o) = true ∧ Z.leb (bprio o) (cprio c') = true).
+    { destruct pe; (destruct c' as [| | |o']; try discriminate; simpl in Hlvl; destruct o; simpl in Hlvl; try lia;
+        try (split; reflexivity); destruct o'; simpl in Hlvl; try lia; split; reflexivity). }
+    destruct Hstop as [Hstop Hleb].
     destruct (decide (o = OJuxt)) as [-> | Hj].
     + destruct HF as (a & rest' & -> & Ha). injection Hpost as <- <-.
-      assert (Hstep : go_fixed op_priority toks (S f) pos d' (cstr c') (Some r) =
+      assert (Hstep : go_p false pe op_priority toks (S f) pos d' (cstr c') (Some r) =
                 if Z.leb (prio_d op_priority "") (prio_d op_priority (cstr c')) then Ok (r, pred pos)
-                else match go_fixed op_priority toks f pos (d' + 1) "" None with
+                else match go_p false pe op_priority toks f pos (d' + 1) "" None with
                      | Err e => Err e
-                     | Ok (rt, i') => tail_of_f op_priority toks f d' (cstr c') (Some (Eval.Bin "" r rt)) i'
+                     | Ok (rt, i') => tail_of false pe op_priority toks f d' (cstr c') (Some (Eval.Bin "" r rt)) i'
                      end).
       { unfold opnd_start in Ha. apply orb_true_iff in Ha as [Ha | Ha].
-        - apply (gf_atom_some _ _ _ _ _ _ _ _ Hcur Ha).
-        - apply bool_decide_eq_true in Ha. rewrite Ha in Hcur. apply (gf_open_some _ _ _ _ _ _ _ Hcur). }
+        - apply (go_atom_some _ _ _ _ _ _ _ _ _ _ Hcur Ha).
+        - apply bool_decide_eq_true in Ha. rewrite Ha in Hcur. apply (go_open_some_prio _ _ _ _ _ _ _ _ _ eq_refl Hcur). }
       rewrite Hstep.
       change "" with (opstr OJuxt). rewrite prio_d_cstr.
       unfold prio_d. rewrite prio_opstr. simpl.
-      simpl in Hstop. rewrite andb_true_r in Hstop. rewrite Hstop. done.
+      simpl in Hleb. rewrite Hleb. done.
     + assert (HF' : ∃ rest', post = TOp (opstr o) :: rest') by (destruct o; try done).
       destruct HF' as (rest' & ->). injection Hpost as <- <-.
-      rewrite (gf_op _ _ _ _ _ _ _ _ Hcur (opstr_not_paren _ Hj)).
-      rewrite prio_opstr, prio_d_cstr, opstr_pow, Hstop. done.
+      rewrite  (go_op _ _ _ _ _ _ _ _ _ _ Hcur (opstr_not_paren _ Hj)).
+      rewrite prio_opstr, prio_d_cstr, Hstop. done.
 Qed.
 
 Lemma wfpf_bin o l r : wfpf (Bin o l r) = true →
@@ -257,12 +157,12 @@ Proof.
   - intros ->. done.
 Qed.
 
-Lemma gf_render e : ∀ c (toks pre post : list tok) F d f g,
+Lemma gf_render pe e : ∀ c (toks pre post : list tok) F d f g,
   wfpf e = true → clvl c ≤ lvl e → followsf post F → flvl F ≤ lvl e →
   toks = pre ++ render_cst e ++ post →
   need e ≤ f → g = steps e + f →
-  go_fixed op_priority toks g (length pre) d (cstr c) None
-  = go_fixed op_priority toks f (length pre + ntok e) d (cstr c) (Some (tree_of e)).
+  go_p false pe op_priority toks g (length pre) d (cstr c) None
+  = go_p false pe op_priority toks f (length pre + ntok e) d (cstr c) (Some (tree_of e)).
 Proof.
   induction e as [s|s|x IH|x IH|o l IHl r IHr|x IH];
     intros c toks pre post F d f g Hwf Hc HF Hfl Htoks Hneed ->;
@@ -270,14 +170,14 @@ Proof.
   - (* number *)
     destruct (followsf_nonempty _ _ HF) as (t & rest & ->).
     assert (Hcur : tok_at toks (length pre) = Some (TNum s)) by (by apply (tok_at_mid _ _ _ (t :: rest))).
-    rewrite (gf_atom_none _ _ _ _ _ _ _ Hcur eq_refl). unfold tail_of_f. rewrite Hcur.
+    rewrite  (go_atom_none _ _ _ _ _ _ _ _ _ Hcur eq_refl). unfold tail_of. rewrite Hcur.
     assert (Hle : Nat.leb (ntoks toks) (length pre + 1) = false).
     { apply Nat.leb_gt. rewrite (ntoks_app _ _ _ Htoks). simpl. lia. }
     by rewrite Hle.
   - (* name *)
     destruct (followsf_nonempty _ _ HF) as (t & rest & ->).
     assert (Hcur : tok_at toks (length pre) = Some (TName s)) by (by apply (tok_at_mid _ _ _ (t :: rest))).
-    rewrite (gf_atom_none _ _ _ _ _ _ _ Hcur eq_refl). unfold tail_of_f. rewrite Hcur.
+    rewrite  (go_atom_none _ _ _ _ _ _ _ _ _ Hcur eq_refl). unfold tail_of. rewrite Hcur.
     assert (Hle : Nat.leb (ntoks toks) (length pre + 1) = false).
     { apply Nat.leb_gt. rewrite (ntoks_app _ _ _ Htoks). simpl. lia. }
     by rewrite Hle.
@@ -286,7 +186,7 @@ Proof.
     assert (Hlx : 2 ≤ lvl x) by (destruct (lvl x) as [|[|]]; [discriminate..|lia]). clear Hlx'.
     assert (Hcur : tok_at toks (length pre) = Some (TOp "-")).
     { eapply tok_at_mid. rewrite Htoks. simpl. reflexivity. }
-    rewrite (gf_op _ _ _ _ _ _ _ _ Hcur eq_refl).
+    rewrite  (go_op _ _ _ _ _ _ _ _ _ _ Hcur eq_refl).
     change (prio op_priority "-") with (Some 0%Z). cbv iota beta.
     assert (Htoks' : toks = (pre ++ [TOp "-"]) ++ render_cst x ++ post).
     { rewrite Htoks. simpl. by rewrite <- !app_assoc. }
@@ -301,7 +201,7 @@ Proof.
     assert (Hpos : length (pre ++ [TOp "-"]) + ntok x = length (((pre ++ [TOp "-"]) ++ ini) ++ [tl])).
     { rewrite <- render_length, Hrl. rewrite !app_length. simpl. lia. }
     rewrite Hpos.
-    destruct (sub_return_f toks ((pre ++ [TOp "-"]) ++ ini) tl post F CUn (d + 1) (tree_of x) (f - steps x)
+    destruct (sub_return_f pe toks ((pre ++ [TOp "-"]) ++ ini) tl post F CUn (d + 1) (tree_of x) (f - steps x)
                 Htoks'' Htl HF eq_refl) as (j & Hj & Hres); [simpl; lia | lia |].
     simpl cstr in Hj. rewrite Hj. rewrite Hres by lia.
     rewrite <- Hpos, Hlen. f_equal. lia.
@@ -310,7 +210,7 @@ Proof.
     assert (Hlx : 2 ≤ lvl x) by (destruct (lvl x) as [|[|]]; [discriminate..|lia]). clear Hlx'.
     assert (Hcur : tok_at toks (length pre) = Some (TOp "+")).
     { eapply tok_at_mid. rewrite Htoks. simpl. reflexivity. }
-    rewrite (gf_op _ _ _ _ _ _ _ _ Hcur eq_refl).
+    rewrite  (go_op _ _ _ _ _ _ _ _ _ _ Hcur eq_refl).
     change (prio op_priority "+") with (Some 0%Z). cbv iota beta.
     assert (Htoks' : toks = (pre ++ [TOp "+"]) ++ render_cst x ++ post).
     { rewrite Htoks. simpl. by rewrite <- !app_assoc. }
@@ -325,7 +225,7 @@ Proof.
     assert (Hpos : length (pre ++ [TOp "+"]) + ntok x = length (((pre ++ [TOp "+"]) ++ ini) ++ [tl])).
     { rewrite <- render_length, Hrl. rewrite !app_length. simpl. lia. }
     rewrite Hpos.
-    destruct (sub_return_f toks ((pre ++ [TOp "+"]) ++ ini) tl post F CUn (d + 1) (tree_of x) (f - steps x)
+    destruct (sub_return_f pe toks ((pre ++ [TOp "+"]) ++ ini) tl post F CUn (d + 1) (tree_of x) (f - steps x)
                 Htoks'' Htl HF eq_refl) as (j & Hj & Hres); [simpl; lia | lia |].
     simpl cstr in Hj. rewrite Hj. rewrite Hres by lia.
     rewrite <- Hpos, Hlen. f_equal. lia.
@@ -358,18 +258,18 @@ Proof.
       assert (Hcur : tok_at toks posl = Some a).
       { apply (tok_at_pos _ (pre ++ render_cst l) _ (restr ++ post)); [|done].
         rewrite Htoksl. unfold postl. simpl. rewrite Hra. by rewrite <- !app_assoc. }
-      assert (Hstep : ∀ R, go_fixed op_priority toks (S f) posl d (cstr c) (Some R) =
+      assert (Hstep : ∀ R, go_p false pe op_priority toks (S f) posl d (cstr c) (Some R) =
                 if Z.leb (prio_d op_priority "") (prio_d op_priority (cstr c)) then Ok (R, pred posl)
-                else match go_fixed op_priority toks f posl (d + 1) "" None with
+                else match go_p false pe op_priority toks f posl (d + 1) "" None with
                      | Err e => Err e
-                     | Ok (rt, i') => tail_of_f op_priority toks f d (cstr c) (Some (Eval.Bin "" R rt)) i'
+                     | Ok (rt, i') => tail_of false pe op_priority toks f d (cstr c) (Some (Eval.Bin "" R rt)) i'
                      end).
       { intros R. unfold opnd_start in Ha. apply orb_true_iff in Ha as [Ha | Ha].
-        - apply (gf_atom_some _ _ _ _ _ _ _ _ Hcur Ha).
-        - apply bool_decide_eq_true in Ha. rewrite Ha in Hcur. apply (gf_open_some _ _ _ _ _ _ _ Hcur). }
+        - apply (go_atom_some _ _ _ _ _ _ _ _ _ _ Hcur Ha).
+        - apply bool_decide_eq_true in Ha. rewrite Ha in Hcur. apply (go_open_some_prio _ _ _ _ _ _ _ _ _ eq_refl Hcur). }
       rewrite Hstep.
       simpl opstr. change (prio_d op_priority "") with 1%Z. rewrite prio_d_cstr.
-      pose proof (continues_ok c OJuxt Hc) as Hco. simpl in Hco. rewrite andb_true_r in Hco. rewrite Hco.
+      rewrite (continues_juxt c Hc).
       set (prer := pre ++ render_cst l).
       assert (Htoksr : toks = prer ++ render_cst r ++ post).
       { rewrite Htoks. unfold prer. simpl. by rewrite <- !app_assoc. }
@@ -381,7 +281,7 @@ Proof.
       assert (Hpos : length prer + ntok r = length ((prer ++ ini) ++ [tl])).
       { rewrite <- render_length, Hrl. rewrite !app_length. simpl. lia. }
       rewrite Hpos.
-      destruct (sub_return_f toks (prer ++ ini) tl post F (COp OJuxt) (d + 1) (tree_of r) (f - steps r)
+      destruct (sub_return_f pe toks (prer ++ ini) tl post F (COp OJuxt) (d + 1) (tree_of r) (f - steps r)
                   Htoks'' Htl HF eq_refl) as (j & Hj' & Hres); [simpl; lia | lia |].
       simpl cstr in Hj'. rewrite Hj'. rewrite Hres by lia.
       rewrite <- Hpos. unfold prer. rewrite <- Hposl. f_equal. unfold posl. simpl. lia.
@@ -389,8 +289,8 @@ Proof.
       assert (Hcur : tok_at toks posl = Some (TOp (opstr o))).
       { apply (tok_at_pos _ (pre ++ render_cst l) _ (render_cst r ++ post)); [|done].
         rewrite Htoksl. unfold postl. rewrite (optok_explicit _ Hj). by rewrite <- !app_assoc. }
-      rewrite (gf_op _ _ _ _ _ _ _ _ Hcur (opstr_not_paren _ Hj)).
-      rewrite prio_opstr, prio_d_cstr, opstr_pow, (continues_ok c o Hc).
+      rewrite  (go_op _ _ _ _ _ _ _ _ _ _ Hcur (opstr_not_paren _ Hj)).
+      rewrite prio_opstr, prio_d_cstr, (continues_ok pe c o Hc).
       set (prer := (pre ++ render_cst l) ++ [TOp (opstr o)]).
       assert (Htoksr : toks = prer ++ render_cst r ++ post).
       { rewrite Htoks. unfold prer. rewrite (optok_explicit _ Hj). by rewrite <- !app_assoc. }
@@ -404,7 +304,7 @@ Proof.
       assert (Hpos : length prer + ntok r = length ((prer ++ ini) ++ [tl])).
       { rewrite <- render_length, Hrl. rewrite !app_length. simpl. lia. }
       rewrite Hpos.
-      destruct (sub_return_f toks (prer ++ ini) tl post F (COp o) (d + 1) (tree_of r) (f - steps r)
+      destruct (sub_return_f pe toks (prer ++ ini) tl post F (COp o) (d + 1) (tree_of r) (f - steps r)
                   Htoks'' Htl HF eq_refl) as (j & Hj' & Hres); [simpl; lia | lia |].
       simpl cstr in Hj'. rewrite Hj'. rewrite Hres by lia.
       rewrite <- Hpos, Hlenr. f_equal. unfold posl. rewrite (optok_explicit _ Hj). simpl. lia.
@@ -412,7 +312,7 @@ Proof.
     destruct (followsf_nonempty _ _ HF) as (t & rest & ->).
     assert (Hcur : tok_at toks (length pre) = Some (TOp "(")).
     { eapply tok_at_mid. rewrite Htoks. simpl. reflexivity. }
-    rewrite (gf_open_none _ _ _ _ _ _ Hcur).
+    rewrite (go_open_none _ _ _ _ _ _ _ _ Hcur).
     assert (Htoks' : toks = (pre ++ [TOp "("]) ++ render_cst x ++ (TOp ")" :: t :: rest)).
     { rewrite Htoks. simpl. rewrite <- !app_assoc. simpl. reflexivity. }
     assert (Hlen : length (pre ++ [TOp "("]) = length pre + 1) by (rewrite app_length; simpl; lia).
@@ -427,23 +327,23 @@ Proof.
       - unfold posx. rewrite (app_length _ (render_cst x)), render_length. done. }
     pose proof (need_ge2 x).
     destruct (f - steps x) as [|f'] eqn:Hf'; [lia|].
-    rewrite (gf_close _ _ _ _ _ _ _ Hclose). simpl. rewrite Hclose. simpl.
-    unfold tail_of_f. rewrite Hclose.
+    rewrite  (go_close _ _ _ _ _ _ _ _ _ Hclose). simpl. rewrite Hclose. simpl.
+    unfold tail_of. rewrite Hclose.
     assert (Hle : Nat.leb (ntoks toks) (posx + 1) = false).
     { apply Nat.leb_gt. rewrite (ntoks_app _ _ _ Htoks'). rewrite (app_length (render_cst x)), render_length. simpl. unfold posx. lia. }
     rewrite Hle. f_equal. unfold posx. lia.
 Qed.
 
-Theorem parse_render_cst_fixed e ending :
+Theorem parse_render_cst_fixed pe e ending :
   wfpf e = true → ending = [TEnd] ∨ ending = [TOther; TEnd] →
-  build_fixed op_priority (render_cst e ++ ending) = Ok (tree_of e).
+  build_p false pe op_priority (render_cst e ++ ending) = Ok (tree_of e).
 Proof.
-  intros Hwf Hend. unfold build_fixed.
+  intros Hwf Hend. unfold build_p.
   set (toks := render_cst e ++ ending).
   assert (Hlen : length toks = ntok e + length ending) by (unfold toks; by rewrite app_length, render_length).
   pose proof (fuel_bound e) as [Hfb _]. pose proof (need_ge2 e) as Hn2.
   assert (Hel : 1 ≤ length ending ≤ 2) by (destruct Hend as [-> | ->]; simpl; lia).
-  pose proof (gf_render e CNone toks [] ending FEnd 0 (build_fuel toks - steps e) (build_fuel toks) Hwf) as E.
+  pose proof (gf_render pe e CNone toks [] ending FEnd 0 (build_fuel toks - steps e) (build_fuel toks) Hwf) as E.
   simpl length in E. simpl cstr in E.
   rewrite E; [ | simpl; lia | exact Hend | simpl; lia | reflexivity | unfold build_fuel; lia | unfold build_fuel; lia].
   clear E.
@@ -453,18 +353,18 @@ Proof.
   assert (Hcur : ∀ t rest, ending = t :: rest → tok_at toks (0 + ntok e) = Some t).
   { intros t rest He. apply (tok_at_pos _ (render_cst e) _ rest); [by rewrite <- He|]. by rewrite render_length. }
   destruct Hend as [-> | ->].
-  - rewrite (gf_skip _ _ _ _ _ _ _ TEnd (Hcur _ _ eq_refl)) by auto.
-    unfold tail_of_f. rewrite (Hcur _ _ eq_refl). done.
-  - rewrite (gf_skip _ _ _ _ _ _ _ TOther (Hcur _ _ eq_refl)) by auto.
-    unfold tail_of_f at 1. rewrite (Hcur _ _ eq_refl).
+  - rewrite  (go_skip _ _ _ _ _ _ _ _ _ TEnd (Hcur _ _ eq_refl)) by auto.
+    unfold tail_of. rewrite (Hcur _ _ eq_refl). done.
+  - rewrite  (go_skip _ _ _ _ _ _ _ _ _ TOther (Hcur _ _ eq_refl)) by auto.
+    unfold tail_of at 1. rewrite (Hcur _ _ eq_refl).
     assert (Hend : tok_at toks (0 + ntok e + 1) = Some TEnd).
     { apply (tok_at_pos _ (render_cst e ++ [TOther]) _ []).
       - unfold toks. by rewrite <- app_assoc.
       - rewrite app_length, render_length. simpl. lia. }
     assert (Hle : Nat.leb (ntoks toks) (0 + ntok e + 1) = false).
     { apply Nat.leb_gt. unfold ntoks. rewrite Hlen. simpl. lia. }
-    rewrite Hle. rewrite (gf_skip _ _ _ _ _ _ _ TEnd Hend) by auto.
-    unfold tail_of_f. rewrite Hend. done.
+    rewrite Hle. rewrite  (go_skip _ _ _ _ _ _ _ _ _ TEnd Hend) by auto.
+    unfold tail_of. rewrite Hend. done.
 Qed.
 
 (** * [parenthesize] produces derivations of the larger grammar *)
@@ -520,12 +420,12 @@ Qed.
 
 (** * [parse_render] for the repaired builder: every juxtaposition whose right operand does not
     start with a sign, including juxtaposition directly before a parenthesised group *)
-Theorem parse_render_fixed s e :
+Theorem parse_render_fixed pe s e :
   legal_f e = true →
-  build_fixed op_priority (render s e ++ [TEnd]) = Ok (tree_of (strip e)).
+  build_p false pe op_priority (render s e ++ [TEnd]) = Ok (tree_of (strip e)).
 Proof.
   intros Hl. unfold render.
-  rewrite (parse_render_cst_fixed _ [TEnd] (parenthesize_wfpf s e Hl)) by auto.
+  rewrite (parse_render_cst_fixed pe _ [TEnd] (parenthesize_wfpf s e Hl)) by auto.
   by rewrite tree_of_parenthesize, tree_of_strip.
 Qed.
 (** [legal] (the guard needed for the defective builder) implies [legal_f] *)
